@@ -323,6 +323,66 @@ def function_call(S, bounds):
     return obls, fns
 
 
+def op(S):
+    """Op: the lhs is typed in the incoming state, the rhs in the state the lhs left.  Eager operators (== != > >= < <=
+    / + - * |) always run both operands: the final state is the rhs's.  Short-circuit operators (?? || &&) end in the
+    lhs's state (rhs statically dead), the rhs's (rhs always runs) or the merge of the two."""
+    obls, fns = [], []
+    f = S.method("Expression", "Op", "type_info")
+    import stateflowlemmas
+    ex = S.executor(oracles=ORACLES, opaque=stateflowlemmas.OPAQUE + OPAQUE)
+    ex.feas_timeout_ms = 200
+    paths = ex.run(f, [ex.fresh("&op::Op", "self"), ex.fresh("&TypeState", "state0")])
+    fns += [(f.name, f.text_hash)] + list(ex.stats["fns_entered"].items())
+    vs = {k: n for n, k in S.types.enum_variants("parser::ast::Opcode")}
+    LHS, RHS = "self*.0.0.0", "self*.1.0.0"
+    seen = set()
+    for pi, p in enumerate(paths):
+        opn = "?"
+        for c in p.st.pc:
+            m = re.match(r"^(\d+) == discr\(self\*\.2\)$", str(c).replace("\n", " "))
+            if m:
+                opn = vs.get(int(m.group(1)), m.group(1))
+        seen.add(opn)
+        bad = []
+        final = None
+        if p.outcome.kind != "ret":
+            bad.append(f"{p.outcome.kind}: {p.outcome.msg}")
+        else:
+            final = _state_term(ex, p.st, ex.agg_field(p.st, p.outcome.value, 0, "compiler::state::TypeState"))
+        s0 = "state0*"
+        s1, s2 = _after(LHS, s0), _after(RHS, _after(LHS, s0))
+        typed = [(e["child"], _norm(e["state"])) for e in p.st.trace if e["kind"] in ("apply_type_info", "type_info")]
+        if not typed or typed[0] != (LHS, s0):
+            bad.append(f"first typing step {typed[:1]}, expected the lhs in the incoming state")
+        for ch, stn in typed[1:]:
+            if ch != RHS or stn != s1:
+                bad.append(f"{ch} typed in {stn}, expected the rhs in {s1}")
+        short = opn in ("Err", "Or", "And")
+        want = {s1, s2, f"merge({s1},{s2})", f"merge({s2},{s1})"} if short else {s2}
+        if final is not None and final not in want:
+            bad.append(f"final state {final}, expected {sorted(want)}" + ("" if short else " (both operands of an eager operator run)"))
+        role = f"C01:Op::type_info[{opn}]:state-follows-the-runtime-paths"
+        o = Obl(role, {"C01", "C02"}, f"{role}#path{pi}", p, z3.BoolVal(not bad), {"problems": bad[:3], "typed": typed[:4], "final_state": final})
+        o.ex = ex
+        obls.append(o)
+    if len(seen) < 14:
+        raise Unencodable(f"Op::type_info: opcodes seen {sorted(seen)}")
+    return obls, fns
+
+
+def op_battery():
+    return [
+        ({"source": "y = \"s\"\n.r = (1 / (y = 5)) ?? 0\n.q = upcase(y)\n", "event": {}}, {"accepted_never_fails": True}),
+        ({"source": "y = \"s\"\n.r = (1 / (y = 5)) ?? 0\n.q = y\n", "event": {}}, {"outcome": "ok", "types_sound": True}),
+        ({"source": ".r = (1 / (.a = 5)) ?? 0\n.q = .a\n", "event": {"a": "s"}}, {"outcome": "ok", "types_sound": True}),
+        ({"source": "y = \"s\"\n.r = 1 + (y = 5)\n.q = y\n", "event": {}}, {"outcome": "ok", "types_sound": True}),
+        ({"source": "y = \"s\"\n.r = 1 == (y = 5)\n.q = y\n", "event": {}}, {"outcome": "ok", "types_sound": True}),
+        ({"source": "y = \"s\"\n.r = false || (y = 5)\n.q = y\n", "event": {}}, {"outcome": "ok", "types_sound": True}),
+        ({"source": "y = \"s\"\n.r = .f || (y = 5)\n.q = y\n", "event": {"f": True}}, {"outcome": "ok", "types_sound": True}),
+    ]
+
+
 def m_insert_type_def(ex, st, callee, args, dest_ty, frame, depth):
     """assignment::Target::insert_type_def(target, &mut state, type_def, constant): an oracle that names the new state
     after everything it was given"""
@@ -433,7 +493,7 @@ def closure_battery():
 
 def obligations(S, bounds=None):
     obls, fns = [], []
-    for g in (if_statement, wrappers, assignment, lambda S_: lists(S_, bounds or {"block": 3, "array": 2}), lambda S_: function_call(S_, bounds or {"block": 3, "array": 2})):
+    for g in (if_statement, wrappers, assignment, op, lambda S_: lists(S_, bounds or {"block": 3, "array": 2}), lambda S_: function_call(S_, bounds or {"block": 3, "array": 2})):
         o, f = g(S)
         obls += o
         fns += f
